@@ -34,7 +34,7 @@ unsigned nondet_uint(void); unsigned short nondet_ushort(void); _Bool nondet_boo
 char g_raw[4096]; unsigned g_ntok; unsigned g_off[NTOK + 1]; unsigned short g_tag[NTOK]; int g_cur = -1;   /* g_off[i]..g_off[i+1] is token i; g_cur: the token last handed out */
 /* ---- ghost: what the decoder did ---- */
 int g_nadded; unsigned short g_added_tag[NTOK + 1]; unsigned g_added_pos[NTOK + 1]; int g_added_from[NTOK + 1];
-unsigned g_unk_calls; unsigned g_unk_lo, g_unk_hi; _Bool g_unk_contiguous;              /* _unknown.append calls: lowest start / highest end offset appended */
+unsigned g_unk_calls; unsigned g_unk_lo, g_unk_hi; _Bool g_unk_contiguous, g_unk_exact;              /* _unknown.append calls: lowest start / highest end offset appended */
 int g_group_calls, g_fixed_calls;
 struct bf_m g_bf[NTOK + 1]; int g_nbf;
 /* ---- ASSUMED models ---- */
@@ -73,9 +73,13 @@ unsigned tok_extract_fixed(const char *from, unsigned sz, unsigned val_sz, char 
   g_fixed_calls++;
   return 0;
 }
+void unk_append(struct sv_m *u, const char *p, unsigned long n);
+void unk_assign(struct sv_m *u, const char *p, unsigned long n) { g_unk_calls = 0; unk_append(u, p, n); }     /* assign: what was kept before is gone */
 void unk_append(struct sv_m *u, const char *p, unsigned long n)
 {
   unsigned lo = (unsigned)(p - g_raw), hi = lo + (unsigned)n;
+  _Bool exact = 0; for (unsigned i = 0; i < NTOK; ++i) if (i < g_ntok && lo == g_off[i] && hi == g_off[i + 1]) exact = 1;
+  if (!exact) g_unk_exact = 0;                                          /* what is kept must be exactly one token of the text */
   if (g_unk_calls == 0) { g_unk_lo = lo; g_unk_contiguous = 1; } else if (lo != g_unk_hi) g_unk_contiguous = 0;
   g_unk_hi = hi; if (g_unk_calls < 100) g_unk_calls++;
 }
@@ -90,7 +94,7 @@ static void mk_text(struct sv_m *from)
   g_off[0] = nondet_uint(); __CPROVER_assume(g_off[0] <= 64);
   for (unsigned i = 0; i < NTOK; ++i) { unsigned len = nondet_uint(); __CPROVER_assume(len >= 4 && len <= 64); g_off[i + 1] = g_off[i] + len; g_tag[i] = nondet_ushort(); __CPROVER_assume(g_tag[i] >= 1); }
   from->data = g_raw; from->size = g_off[g_ntok];                       /* the text ends with the last token */
-  g_cur = -1; g_nadded = 0; g_nbf = 0; g_unk_calls = 0; g_unk_lo = 0; g_unk_hi = 0; g_unk_contiguous = 1; g_group_calls = 0; __exc = 0;
+  g_cur = -1; g_nadded = 0; g_nbf = 0; g_unk_calls = 0; g_unk_lo = 0; g_unk_hi = 0; g_unk_contiguous = 1; g_unk_exact = 1; g_group_calls = 0; __exc = 0;
 }
 static void mk_part(struct FIX8_MessageBase *m)
 {
@@ -144,6 +148,8 @@ void h_part_permissive(void)
     int known = 0; for (unsigned i = 0; i < NTOK; ++i) if (i < g_ntok && g_off[i] < r && legal(&m0, g_tag[i])) known++;
     __CPROVER_assert(r >= g_off[0] && r <= g_off[g_ntok], "C05.part.permissive.returned_offset_inside_the_text");
     __CPROVER_assert(g_nadded >= known, "C05.part.permissive.no_known_field_before_the_returned_offset_is_lost");
+    unsigned unknown_tokens = 0; for (unsigned i = 0; i < NTOK; ++i) if (i < g_ntok && !legal(&m0, g_tag[i])) unknown_tokens++;
+    __CPROVER_assert(g_unk_exact && g_unk_calls == unknown_tokens, "C05.part.permissive.every_unknown_token_is_kept_once_with_exactly_its_own_bytes");
     __CPROVER_assert(g_unk_calls == 0 || g_unk_hi <= r, "C05.part.permissive.unknown_text_kept_by_this_part_lies_before_the_offset_handed_on");
   }
   VACUITY_PROBE();
@@ -194,7 +200,7 @@ UNIT = dict(
         calls_rx=[(PS + r'::find', 'pres_find'), (PS + r'::end', 'pres_end'),
                   (r'FIX8::ebitset<FIX8::FieldTrait::TraitTypes, unsigned short>::has', 'ebit_has'), (r'FIX8::ebitset<FIX8::FieldTrait::TraitTypes, unsigned short>::set', 'ebit_set')],
         calls={
-            'std::basic_string<char>::size': 'sv_size', 'std::basic_string<char>::data': 'sv_data', 'std::basic_string<char>::append': 'unk_append',
+            'std::basic_string<char>::size': 'sv_size', 'std::basic_string<char>::data': 'sv_data', 'std::basic_string<char>::append': 'unk_append', 'std::basic_string<char>::assign': 'unk_assign',
             'std::multimap<unsigned short, FIX8::BaseField *>::size': 'posmap_size',
             'extract_element': 'tok_extract', 'extract_element_fixed_width': 'tok_extract_fixed',
             'fast_atoi|unsigned short (const char *, const char)': 'atoi_tag', 'fast_atoi|unsigned int (const char *, const char)': 'atoi_val',
